@@ -112,6 +112,7 @@ type cfg struct {
 	WTR     int  // reactive.WriteThenReadDelay in ms
 	Reorder int  // 1, 2: the database table declares its columns in another order than the struct (rows in change events follow the database)
 	Switch  int  // 1+alt: the first live computation selects between Queries[0] and filter alt by other reactive state; the history is selection away, the writes, selection back (each step settled)
+	Burst   int  // a writer inserts this many rows one statement at a time while the update applier is delayed (more change events than the loop's buffer holds); default schedule only
 	MetaBad bool // the column list cannot be fetched (driver.ErrBadConn) while change events arrive: they are undecodable
 }
 
@@ -122,6 +123,9 @@ func (c cfg) name() string {
 	}
 	if c.Switch != 0 {
 		s += fmt.Sprintf(" switch=%d", c.Switch)
+	}
+	if c.Burst != 0 {
+		s += fmt.Sprintf(" burst=%d", c.Burst)
 	}
 	if c.Reorder != 0 {
 		s += fmt.Sprintf(" reorder=%d", c.Reorder)
@@ -171,6 +175,9 @@ func parse(s string) cfg {
 	if strings.Contains(s, "metabad=true") {
 		c.MetaBad = true
 	}
+	if i := strings.Index(s, "burst="); i >= 0 {
+		fmt.Sscan(s[i+6:], &c.Burst)
+	}
 	if i := strings.Index(s, "switch="); i >= 0 {
 		fmt.Sscan(s[i+7:], &c.Switch)
 	}
@@ -203,7 +210,11 @@ func binlogRow(r []driver.Value) []interface{} {
 
 func item(c cfg) *explore.Item {
 	fs, ws := filters(), writes()
-	return &explore.Item{Name: c.name(), Bound: -1, MaxSteps: 12000, Body: func(x *explore.Exec) {
+	bound, maxSteps := -1, 12000
+	if c.Burst > 0 {
+		bound, maxSteps = 0, 4000000
+	}
+	return &explore.Item{Name: c.name(), Bound: bound, MaxSteps: maxSteps, MaxClock: 100000, Body: func(x *explore.Exec) {
 		reactive.WriteThenReadDelay = time.Duration(c.WTR) * time.Millisecond
 		schema := sqlgen.NewSchema()
 		schema.MustRegisterType("items", sqlgen.UniqueId, Item{})
@@ -376,6 +387,20 @@ func item(c cfg) *explore.Item {
 				}
 			})
 		}
+		if c.Burst > 0 {
+			rt.Quiesce() // the live queries have run and are tracked
+			rt.Go(func() {
+				// rows no live query here selects first, the rows they do select last: only the last change events
+				// of the burst invalidate them
+				for i := 0; i < c.Burst; i++ {
+					grp := int32(7)
+					if i >= c.Burst-8 {
+						grp = 1
+					}
+					db.InsertRow(context.Background(), &Item{Id: int64(100 + i), Draft: "d", Grp: grp, Name: "a"})
+				}
+			})
+		}
 		rt.Quiesce()
 		if c.Switch != 0 {
 			selected.Store(0)
@@ -413,6 +438,9 @@ func item(c cfg) *explore.Item {
 				}
 				x.Fail(cl, sig, "live query %s holds rows %v after %d runs, the table now gives %v (garbled events: %d)", fs[qi].name, l.held, l.runs, want, garbled)
 			}
+		}
+		if c.Burst > 0 {
+			x.Outcome("burst: runs=%d held=%d table=%d", lives[0].runs, len(lives[0].held), len(tbl.Rows))
 		}
 		x.Outcome("garbled=%d", garbled)
 		x.Nontrivial()
@@ -465,6 +493,8 @@ func configs(tier string) []cfg {
 			}
 		}
 	}
+	// more change events than the poll loop buffers, delivered while the applier is delayed
+	out = append(out, cfg{Queries: []int{0, 2}, Burst: 1040, Delay: 5})
 	out = append(out, cfg{Queries: []int{0}, Writers: [][]int{{2}}, Delay: 5}, cfg{Queries: []int{0}, Writers: [][]int{{3}}, WTR: 3},
 		cfg{Queries: []int{2}, Writers: [][]int{{4}}, Delay: 5, WTR: 3, Fault: true})
 	if tier == "thorough" {
@@ -487,5 +517,5 @@ func run(rp *explore.Report, tier string) {
 func init() {
 	reg.Register(&reg.Harness{Property: "C07", Name: "c07/livesql", Level: "model_checking", Bounds: [2]int{2, 3}, Run: run,
 		Item: func(name string) *explore.Item { return item(parse(name)) },
-		Rule: "items = 1-2 live queries (rerunner around LiveDB.Query; filters on key, int32 column, two columns, NULL / pointer column, empty filter, other Go type) x 1-2 writers issuing inserts, updates moving rows into and out of the filter, deletes, upserts through sqlgen over an in-memory driver whose commits emit replication-shaped row events (typed ints, NULLs) into the real RunPollLoop through an in-process streamer, optional update delay / WriteThenReadDelay on the virtual clock, a database column order that differs from the struct's, a column-list fetch that fails with driver.ErrBadConn, a computation that selects between two live queries by other reactive state (selection away, the writes, selection back: a query dropped in one run and used again later), and explorer-chosen garbled events (extra column, unscannable value = schema change); all schedules within the deviation bound. Oracle at quiescence: rows held by each live query == filter evaluated on the final table; after Stop/close every goroutine ends and no dependency stays tracked"})
+		Rule: "items = 1-2 live queries (rerunner around LiveDB.Query; filters on key, int32 column, two columns, NULL / pointer column, empty filter, other Go type) x 1-2 writers issuing inserts, updates moving rows into and out of the filter, deletes, upserts through sqlgen over an in-memory driver whose commits emit replication-shaped row events (typed ints, NULLs) into the real RunPollLoop through an in-process streamer, optional update delay / WriteThenReadDelay on the virtual clock, a burst of 1040 single-row inserts while the applier is delayed (default schedule only), a database column order that differs from the struct's, a column-list fetch that fails with driver.ErrBadConn, a computation that selects between two live queries by other reactive state (selection away, the writes, selection back: a query dropped in one run and used again later), and explorer-chosen garbled events (extra column, unscannable value = schema change); all schedules within the deviation bound. Oracle at quiescence: rows held by each live query == filter evaluated on the final table; after Stop/close every goroutine ends and no dependency stays tracked"})
 }
